@@ -101,7 +101,15 @@ pub fn abs_input(i: &mut Interner, inp: &Input) -> T {
             utxo_id, owner, amount, asset_id, ..
         }) => {
             let (a, b) = utxo(i, utxo_id);
-            T::l(vec![T::i(0), n(a), n(b), n(i.id(owner.as_ref())), n(*amount), n(i.id(asset_id.as_ref()))])
+            T::l(vec![
+                T::i(0),
+                n(a),
+                n(b),
+                n(i.id(owner.as_ref())),
+                n(*amount),
+                n(i.id(asset_id.as_ref())),
+                T::b(inp.is_coin_predicate()),
+            ])
         }
         Input::Contract(c) => T::l(vec![T::i(2), n(i.id(c.contract_id.as_ref()))]),
         _ => {
@@ -116,6 +124,7 @@ pub fn abs_input(i: &mut Interner, inp: &Input) -> T {
                 n(inp.amount().expect("amount")),
                 n(i.digest(&data)),
                 T::b(retry),
+                T::b(inp.is_message_coin_predicate() || inp.is_message_data_predicate()),
             ])
         }
     }
